@@ -462,7 +462,7 @@ class ClassParser(BaseParser):
 
             # TODO: it seems redundant for Schema, so we just use it as a fallback for now
             # and work on it later if something went wrong
-            if not field and hasattr(instance.__class__, attname):
+            if not field and isinstance(attname, str) and hasattr(instance.__class__, attname):
                 # an additional key must not shadow an attribute of the class (like dict.items)
                 continue
             instance.__dict__[attname] = value
